@@ -335,8 +335,8 @@ LocalRules(c) ==
                             \cup (IF c.count > 31 THEN { Rule("CountOutOfRange", << c.count, 31 >>) } ELSE {})
                             \cup (IF Len(c.data) % 4 # 0 THEN { Rule("DataLen32bitMultiple", << Len(c.data) >>) } ELSE {})
       [] c.kind \in {"tfb", "pfb"} -> PadRule(c.padding) \cup FciRules(c.kind, c.fci)
-      [] c.kind = "custom" -> PadRule(c.padding)
-                            \cup (IF c.count > 31 THEN { Rule("CountOutOfRange", << c.count, 31 >>) } ELSE {})
+      [] c.kind = "custom" -> PadRule(c.padding)      \* maxc: the MAX_COUNT the third-party type declares
+                            \cup (IF c.count > c.maxc THEN { Rule("CountOutOfRange", << c.count, c.maxc >>) } ELSE {})
       [] c.kind = "item"  -> ItemRules(c.item)
       [] c.kind = "chunk" -> ChunkRules(c.chunk)
       [] c.kind = "compound" ->
